@@ -10,4 +10,8 @@ StatFile == IOEnv.VERIF_STAT
 Trace == ndJsonDeserialize(ObsFile)
 Emit(file, v) == CSVWrite("%1$s", <<ToJson(v)>>, file)
 Has(o, f) == f \in DOMAIN o
+(* CLI wiring: for a sample of vectors the harness also ran the gofasta binary with the equivalent flags; *)
+(* r carries cli_same (its output = the entry point's, byte for byte), cli_exit and cli_timeout.          *)
+CliBadAt(r, p) == Has(r, p \o "cli_same") /\ (~r[p \o "cli_same"] \/ r[p \o "cli_exit"] # 0 \/ r[p \o "cli_timeout"])
+CliBad(r) == CliBadAt(r, "")
 =============================================================================
